@@ -454,5 +454,5 @@ def _count(val: Any) -> Optional[int]:
         return None
     try:
         return int(val)
-    except ValueError:
+    except (ValueError, OverflowError):
         return None
